@@ -55,6 +55,8 @@ def main():
     finally:
         subprocess.call(["git", "-C", "/repo", "worktree", "remove", "--force", wt])
         shutil.rmtree(wt, ignore_errors=True)
+        # the tables the translators wrote from the patched tree (coq/Gen) go back to /repo's
+        subprocess.call(["git", "-C", V, "checkout", "-q", "--", "coq/Gen"])
         # replays produced by seeded runs are not findings on /repo
         rd = os.path.join(V, "replays")
         if os.path.isdir(rd):
